@@ -98,7 +98,32 @@ fn observe(bytes: &[u8], cfg: &SessionConfig) -> String {
     r
 }
 
+/// the observation, followed by the iterator-protocol verdict of the message's own iterators (an embedded
+/// UPDATE carries its own `proto` group) unless an accessor group panicked
 fn observe_full(bytes: &[u8], cfg: &SessionConfig) -> String {
+    let r = observe_full0(bytes, cfg);
+    if r == "err" || r.contains("=panic") || r.ends_with(" panic") { return r; }
+    let mut p = Proto::new();
+    if p.on() {
+        if let Ok(msg) = Message::from_octets(bytes) {
+            match &msg {
+                Message::StatisticsReport(m) => p.it("stats()", || m.stats(), |s| format!("{:?}", s).replace(' ', ""), 1_000_000),
+                Message::PeerUpNotification(m) => {
+                    p.it("information_tlvs()", || m.information_tlvs(), |t| format!("{}:{}:{}", u16::from(t.typ()), t.length(), hex(t.value())), 100_000);
+                    let (a, b) = m.bgp_open_sent_rcvd();
+                    crate::props::c03::proto_of_open(&mut p, "sent.", &a, true, true, true);
+                    crate::props::c03::proto_of_open(&mut p, "rcvd.", &b, true, true, true);
+                }
+                Message::InitiationMessage(m) => p.it("information_tlvs()", || m.information_tlvs(), |t| format!("{}:{}:{}", u16::from(t.typ()), t.length(), hex(t.value())), 100_000),
+                Message::TerminationMessage(m) => p.it("information()", || m.information(), |i| format!("{:?}", i).replace(' ', "_"), 100_000),
+                _ => {}
+            }
+        }
+    }
+    format!("{} {}", r, p.token())
+}
+
+fn observe_full0(bytes: &[u8], cfg: &SessionConfig) -> String {
     let msg = match Message::from_octets(bytes) {
         Ok(m) => m,
         Err(_) => return "err".into(),
@@ -770,6 +795,7 @@ impl Prop for C15 {
             return Ok(());
         }
         if reply == "unspec" { return Ok(()); }   // embedded PDU of another BGP type: outside the property, nothing panicked
+        proto_judge(reply)?;   // iterator protocol: the message's own iterators and those of an embedded UPDATE
         for f in reply.split(' ') {
             if f.ends_with("=panic") { return Err(format!("accessor group `{}` panicked on an accepted message", f)); }
         }
